@@ -1474,7 +1474,8 @@ def _unstage_fields(fn):
                 continue
             if any(isinstance(x, ast.Name) and x.id == tmp for s1 in body[i + 1:] for x in ast.walk(s1)):
                 continue
-            if any(isinstance(x, ast.Attribute) and x.attr == field and isinstance(x.value, ast.Name) and x.value.id == recv for s1 in body[first:i] for x in ast.walk(s1)):
+            # nothing in between may look at the object (a method call or subscript on it could read the field while it still holds the OLD value)
+            if any(isinstance(x, ast.Name) and x.id == recv for s1 in body[first:i] for x in ast.walk(s1)):
                 continue
             body[first].targets = [ast.copy_location(ast.Attribute(value=ast.Name(id=recv, ctx=ast.Load()), attr=field, ctx=ast.Store()), body[first].targets[0])]
 
@@ -1896,7 +1897,6 @@ class Module:
                 if q in kd and kd[q] != fn_digest(node):
                     if '.' in q:
                         _unstage_fields(node)
-                    _forward_named_conditions(node)
         kc = _KNOWN_EXTRA.get('constants', {}).get(relpath)
         if kc is not None:
             _localise_new_constants(raw, set(kc))
